@@ -5,10 +5,10 @@ from engine.loader import AnalysisError
 P = "param.parameterized."
 
 
-def call_watcher_outcome(ctx, trig, onlychanged, changed, batch, prequeued="none"):
+def call_watcher_outcome(ctx, trig, onlychanged, changed, batch, prequeued="none", queued=False):
     """Run _call_watcher abstractly; returns ('skip'|'queue'|'execute'|'both', ns_obj, watcher)."""
     cw = ctx.repo.func(P + "Parameters._call_watcher")
-    w = Obj("watcher", onlychanged=onlychanged, queued=False)
+    w = Obj("watcher", onlychanged=onlychanged, queued=queued)
     other = Obj("other_watcher", onlychanged=onlychanged, queued=False)
     pre = {"none": [], "same": [w], "other": [other]}[prequeued]
     ns = Obj("ns", _TRIGGER=trig, _BATCH_WATCH=batch, _events=[], _state_watchers=list(pre), self_or_cls=Obj("owner"))
